@@ -23,7 +23,7 @@ Qed.
 (* a header whose field has no cell yet: the cell is appended, on either tree *)
 Lemma rekey_put_new_get acc k v : oget str_eqb acc k = None -> rekey_put acc k v = acc ++ [(k, v)].
 Proof.
-  intros H. unfold rekey_put, ocontains. rewrite H. rewrite !andb_false_r. apply oset_absent_get, H.
+  intros H. unfold rekey_put, ocontains. rewrite H. rewrite andb_false_r. apply oset_absent_get, H.
 Qed.
 
 Lemma rekey_put_new acc k v : ~ In k (map fst acc) -> rekey_put acc k v = acc ++ [(k, v)].
@@ -31,7 +31,7 @@ Proof. intros H. apply rekey_put_new_get, oget_notin, H. Qed.
 
 (* a non-blank cell is assigned, on either tree *)
 Lemma rekey_put_nonblank acc k c v : rekey_put acc k (c :: v) = oset str_eqb acc k (c :: v).
-Proof. unfold rekey_put. cbn [is_nil]. rewrite andb_false_r. reflexivity. Qed.
+Proof. unfold rekey_put. cbn [is_nil]. rewrite !andb_false_r. reflexivity. Qed.
 
 (* the keys never change order, and no key is ever removed *)
 Lemma rekey_put_keys acc k v :
@@ -41,6 +41,6 @@ Proof.
   { unfold ocontains. induction acc as [|[k' v'] r IH]; cbn [oset oget map fst app]; [reflexivity|].
     destruct (str_eqb k' k) eqn:E; cbn [map fst]; [reflexivity|]. rewrite IH.
     destruct (oget str_eqb r k); reflexivity. }
-  unfold rekey_put. destruct (rekey_blank_keeps && is_nil v && ocontains str_eqb acc k) eqn:E; [|exact Hset].
-  apply andb_true_iff in E as [_ E]. rewrite E. reflexivity.
+  unfold rekey_put. destruct (rekey_blank_keeps && ocontains str_eqb acc k && is_nil v) eqn:E; [|exact Hset].
+  apply andb_true_iff in E as [E _]. apply andb_true_iff in E as [_ E]. rewrite E. reflexivity.
 Qed.
